@@ -17,6 +17,9 @@ TComplex(re, im) == T("Complex", <<re, im>>, "", 0, 0)
 TInf(dir) == T("Inf", <<TInt(dir)>>, "", 0, 0)
 TNaN == T("NaN", <<>>, "", 0, 0)
 TFn(name, a) == T("fn", a, name, 0, 0)
+TDbl(sign, mant, e) == T("Dbl", <<TInt(0), TInt(mant), TInt(e)>>, "fin", sign, 0)   \* sign*mant*2^e, mant odd
+TDblZero(sign) == T("Dbl", <<>>, "zero", sign, 0)
+TCDbl(re, im) == T("CDbl", <<re, im>>, "", 0, 0)
 
 \* double dump -> value: exact when it is a small dyadic, else unknown
 Pow2(k) == RPowInt(<<2, 1>>, k)
@@ -35,6 +38,12 @@ ConstVal(s) ==
       [] s = "Catalan" -> VRes(CCAT, 0)
       [] s = "GoldenRatio" -> VRes(CGR, 0)
       [] OTHER -> VUndef
+
+\* truth value of a < b / a <= b on comparable real values
+RelVal(rel, a, b) ==
+    LET c == RealCmp(a, b)
+    IN IF c = "unk" THEN VUndef
+       ELSE VBool(IF rel = "lt" THEN c = "lt" ELSE c \in {"lt", "eq"})
 
 RECURSIVE Val(_, _), SumVals(_, _, _), ProdVals(_, _, _), ValSeq(_, _)
 
@@ -85,6 +94,11 @@ Val(t, env) ==
       \* ---- functions of one argument (recipe op and dump class)
       [] k \in DOMAIN Fun1Name -> Fun1(Fun1Name[k], A(1))
       [] k \in DOMAIN Fun2Name -> Fun2(Fun2Name[k], A(1), A(2))
+      \* ---- relations between real values (recipe ops and dumped classes)
+      [] k \in {"Lt", "StrictLessThan"} -> RelVal("lt", A(1), A(2))
+      [] k \in {"Le", "LessThan"} -> RelVal("le", A(1), A(2))
+      [] k = "Gt" -> RelVal("lt", A(2), A(1))
+      [] k = "Ge" -> RelVal("le", A(2), A(1))
       [] k \in {"max", "Max"} -> FunMax(ValSeq(t.a, env))
       [] k \in {"min", "Min"} -> FunMin(ValSeq(t.a, env))
       [] OTHER -> VUndef
